@@ -131,6 +131,16 @@ def check_session(ck, H, year, forms, seed, prof, overrides, initial, k, kind, w
         if norm(after[n.lower()]) != norm(a):
             probs.append('answer given before the interruption changed in the file: %s' % n)
             break
+    # what habutax itself reads from the file on the next run (its own reader, not an independent parser)
+    try:
+        st = H['inputs'].InputStore(path)
+        for key, v in list(initial.items()) + given:
+            sec, opt = key.split('.')
+            if st.config.has_option(sec, opt) and norm(st.config.get(sec, opt)) != norm(v):
+                probs.append('the next run reads %s back as %r instead of %r' % (key, st.config.get(sec, opt), v))
+                break
+    except Exception as e:  # noqa
+        probs.append('habutax cannot read the input file after the session: %r' % (e,))
     # re-run: must not ask again for anything already answered / present
     pol2 = scenarios.Policy(seed, dict(prof, year=year), overrides)
     s2 = Script(H, year, pol2, interrupt_at=None)
@@ -166,7 +176,7 @@ def run(tier, seed):
         ('invalid-file-value', None),
     ]
     for idx, (year, forms, sseed, prof) in enumerate(stream):
-        initial = {'1040.first_name': 'Pat', '1040.last_name': 'Lee  '}
+        initial = {'1040.first_name': 'Pat', '1040.last_name': 'Lee  ', '1040.home_address': '742 Evergreen Terrace #3 ; rear'}
         # full session first: how many prompts are there?
         s_full, exc_full, probs = check_session(ck, H, year, forms, sseed, prof, None, initial, None, 'none', workdir,
                                                 'full%d' % idx)
